@@ -93,10 +93,67 @@ def _patch():
 
 
 def _task(body, **kw):
-    # the contracts need at most a handful of decision paths; a path explosion means the code no longer
-    # has the expected shape and ends as 'undecided' quickly instead of exhausting the default cap
+    """one Task (= one worker job) for a member session"""
     kw.setdefault("max_paths", 64)
-    return Task(body, modules=[GRID, "fdtdx.config"], extra_patch=_patch(), patch_names=PATCH_NAMES, **kw)
+    return Task(_quick_fail(body), modules=[GRID, "fdtdx.config"], extra_patch=_patch(), patch_names=PATCH_NAMES, **kw)
+
+
+def group_task(members, modules=None):
+    """Bundle many small member sessions into ONE harness task (one worker process: the sessions take
+    milliseconds each, starting a process costs seconds).  Every member is explored by its own nested
+    `Session.run` on the harness session, i.e. with its own contexts, decision tree and exception
+    handler; its obligations are recorded under '<member key>:<obligation>'.
+
+    members: list of (key, body(c, inp), on_exception(c, exc))"""
+    import os
+    import re
+
+    only = os.environ.get("VERIF_MEMBER_ONLY")  # development aid: run a subset of the members
+    if only:
+        members = [m for m in members if re.search(only, m[0])]
+
+    def body(c, inp):
+        import vc.core as core
+        from vc.harness import Inputs
+
+        sess = c.session
+        for key, sub, on_exc in members:
+            run = _quick_fail(sub)
+
+            def prefixed(cc, key=key):
+                orig = cc.prove
+                cc.prove = lambda name, goal, *a, _o=orig, **k: _o(f"{key}:{name}", goal, *a, **k)
+                return cc
+
+            def member_body(cc, run=run, key=key):
+                cc.inputs = Inputs()
+                cc.inputs.note("member", key)
+                run(prefixed(cc), cc.inputs)
+
+            def member_exc(cc, exc, on_exc=on_exc):
+                on_exc(cc, exc)
+
+            try:
+                sess.run(member_body, on_exception=member_exc)
+            finally:
+                core._CTX[0] = c
+
+    return Task(body, modules=modules or [GRID, "fdtdx.config"], extra_patch=_patch(), patch_names=PATCH_NAMES, max_paths=64 * max(1, len(members)))
+
+
+def _quick_fail(body):
+    """Every obligation of this property is decided in milliseconds on a conforming tree.  Shorter
+    solver budgets only make a NON-conforming tree fail faster ('unknown' stays undecided, it is never
+    counted as discharged)."""
+
+    def run(c, inp):
+        import vc.core as core
+
+        core.Z3_TIMEOUT_MS = min(core.Z3_TIMEOUT_MS, 6000)
+        core.CVC5_TIMEOUT_MS = min(core.CVC5_TIMEOUT_MS, 6000)
+        return body(c, inp)
+
+    return run
 
 
 # ---------------------------------------------------------------------------------------
@@ -443,6 +500,44 @@ def _cell_volume(mode):
     return body
 
 
+def _products_concrete(ns, slices):
+    """face_area / cell_volume on a grid of concrete cell counts and a concrete slice: every entry is
+    compared with the product of edge differences (plain polynomial arithmetic in the edge values)"""
+
+    def body(c, inp):
+        inp_ns = grid_shape(ns, inp)
+        g, es, ws, ms = make_grid(inp_ns, inp)
+        inp.note("call", {"method": "cell_volume"})
+        c.cover("pre")
+
+        def w(a, i):
+            return at(es[a], i + 1) - at(es[a], i)
+
+        ext = [slices[a][1] - slices[a][0] for a in range(3)]
+        vol = g.cell_volume(tuple(slices))
+        c.prove("cell_volume/post:shape", tuple(vol.shape) == tuple(ext))
+        if tuple(vol.shape) == tuple(ext):
+            for idx in itertools.product(*[range(k) for k in ext]):
+                spec = 1
+                for a in range(3):
+                    spec = spec * w(a, slices[a][0] + idx[a])
+                c.prove(f"cell_volume/post:product_of_the_three_cell_widths_from_edges{list(idx)}", vol.at_index(idx) == spec)
+        for axis in range(3):
+            t0, t1 = [a for a in range(3) if a != axis]
+            fa = g.face_area(axis, tuple(slices))
+            want = [0, 0, 0]
+            want[axis], want[t0], want[t1] = 1, ext[t0], ext[t1]
+            c.prove(f"face_area/post:shape[normal{axis}]", tuple(fa.shape) == tuple(want))
+            if tuple(fa.shape) == tuple(want):
+                for i in range(ext[t0]):
+                    for j in range(ext[t1]):
+                        idx = [0, 0, 0]
+                        idx[t0], idx[t1] = i, j
+                        c.prove(f"face_area/post:product_of_transverse_cell_widths_from_edges[normal{axis}]{idx}", fa.at_index(tuple(idx)) == w(t0, slices[t0][0] + i) * w(t1, slices[t1][0] + j))
+
+    return body
+
+
 def _cfl(branch):
     """branch: 'nonuniform' | 'uniform' | 'flag_without_spacing'"""
 
@@ -638,6 +733,8 @@ def _reduce_symmetric(ns, symmetry):
 # task table
 # ---------------------------------------------------------------------------------------
 
+PRODUCT_CASES = [((2, 3, 1), ((0, 2), (0, 3), (0, 1))), ((3, 1, 2), ((1, 3), (0, 1), (0, 2))), ((1, 2, 3), ((0, 1), (1, 2), (1, 3)))]
+PRODUCT_CASES_THOROUGH = [((4, 2, 3), ((1, 4), (0, 2), (2, 3))), ((2, 4, 4), ((0, 2), (1, 3), (0, 4)))]
 ANCHOR_POSITIONS = (-1.0, 0.0, 1.0, 0.25)
 CONSTRUCTOR_SHAPES = [(1, 1, 1), (2, 1, 3), (1, 3, 2), (3, 2, 1), (2, 2, 2)]
 REDUCE_CASES = [
@@ -652,6 +749,11 @@ REDUCE_CASES = [
 ]
 
 
+def _no_exception(c, exc):
+    """sessions whose contract has no exceptional case: raising on a feasible path is a violation"""
+    c.prove(f"no_exception_within_precondition[{type(exc).__name__}]", False)
+
+
 def _rot(t, k):
     return tuple(t[(i + k) % 3] for i in range(3))
 
@@ -663,8 +765,10 @@ def tasks(tier, seed):
     constructor_shapes = CONSTRUCTOR_SHAPES + ([(4, 1, 2), (1, 4, 3), (3, 3, 3), (2, 1, 5)] if thorough else [])
     reduce_cases = REDUCE_CASES + ([((6, 2, 4), (1, -1, 1)), ((4, 4, 4), (-1, 0, 1)), ((5, 6, 2), (0, 1, 1)), ((2, 6, 3), (1, 1, 0))] if thorough else [])
 
-    def add(key, body, on_exc=None, **kw):
-        out[key] = _task(body, on_exception=on_exc, **kw)
+    members = []
+
+    def add(key, body, on_exc=None):
+        members.append((key, body, on_exc or _no_exception))
 
     for axis in range(3):
         # concrete shapes: the axis under test sees every length of the base triple once
@@ -696,6 +800,8 @@ def tasks(tier, seed):
     add("coord_to_index/unknown_snap", _coord_to_index_bad_snap)
     add("slice_extent_shape_min_spacing/sym", _slice_extent_shape("sym"))
     add("cell_volume/sym", _cell_volume("sym"))
+    for ns, sl in PRODUCT_CASES + (PRODUCT_CASES_THOROUGH if thorough else []):
+        add("face_area_cell_volume/n" + "".join(map(str, ns)) + "/" + "_".join(f"{lo}-{hi}" for lo, hi in sl), _products_concrete(ns, sl))
     for br in ("nonuniform", "uniform", "flag_without_spacing"):
         add(f"cfl_time_step/{br}", _cfl(br))
     for ns in constructor_shapes:
@@ -708,6 +814,14 @@ def tasks(tier, seed):
     for ns, sym in reduce_cases:
         b, h = _reduce_symmetric(ns, sym)
         add("reduce_symmetric/n" + "".join(map(str, ns)) + "/s" + "".join("0+-"[s] for s in sym), b, h)
+    # few worker jobs: group the member sessions by the method they exercise
+    groups = {}
+    for key, body, on_exc in members:
+        head = key.split("/")[0]
+        gname = {"coord_to_index": "snapping", "length_to_cell_count": "snapping", "bounds_for_center": "interval_from_center", "bounds_for_anchor": "interval_from_anchor", "constructor": "constructor_cfl", "cfl_time_step": "constructor_cfl", "reduce_symmetric": "symmetric_reduction"}.get(head, "extents_areas_volumes")
+        groups.setdefault(gname, []).append((key, body, on_exc))
+    for gname, ms in groups.items():
+        out[gname] = group_task(ms)
     return out
 
 
@@ -879,7 +993,7 @@ def replay(key, obligation, witness):
     w = witness or {}
     call = dict((w.get("notes") or {}).get("call") or {})
     if not call:
-        part = key.split("/")[0]
+        part = (obligation.split(":")[0] if ":" in obligation else key).split("/")[0]
         call = {"method": {"anchor_extent_centers": "anchor_coordinate/axis_extent", "slice_extent_shape_min_spacing": "slice_extent", "constructor": "__post_init__"}.get(part, part)}
     sc = dict(w.get("scalars") or {})
     tried = 0
